@@ -211,3 +211,12 @@ BENIGN += [
          old='        try:\n            return self.query[self.pos]\n        except IndexError:\n            return ""\n\n    def accept(',
          new='        return self.query[self.pos : self.pos + 1]\n\n    def accept('),
 ]
+
+
+BENIGN += [
+    # the deterministic visitor with its last child handled by a tail loop, depth discipline intact (the correct twin of
+    # the round-5 seeds r5G-5 / r5H-4): C18 decides it by induction over the loop; C01 / C08 do not decide the order (exit 2)
+    dict(id="c18-visit-tail-loop-correct", props=["C18", "C14", "C16", "C17", "C13"], file=S + "segments.py",
+         old='        if depth > self.env.max_recursion_depth:\n            raise JSONPathRecursionError("recursion limit exceeded", token=self.token)\n\n        yield node\n\n        if isinstance(node.value, dict):\n            for name, val in node.value.items():\n                if isinstance(val, (dict, list)):\n                    _node = node.new_child(val, name)\n                    yield from self._visit(_node, depth + 1)\n        elif isinstance(node.value, list):\n            for i, element in enumerate(node.value):\n                if isinstance(element, (dict, list)):\n                    _node = node.new_child(element, i)\n                    yield from self._visit(_node, depth + 1)\n\n',
+         new='        # Recurse for all but the last container child of a node and carry on\n        # with the last one in this frame. Long chains of singly nested\n        # containers, the usual deep case, then need one generator in total\n        # rather than one per level, which keeps a generous max_recursion_depth\n        # clear of the interpreter\'s own recursion limit.\n        while True:\n            if depth > self.env.max_recursion_depth:\n                raise JSONPathRecursionError(\n                    "recursion limit exceeded", token=self.token\n                )\n\n            yield node\n\n            if isinstance(node.value, dict):\n                children = [\n                    node.new_child(val, name)\n                    for name, val in node.value.items()\n                    if isinstance(val, (dict, list))\n                ]\n            elif isinstance(node.value, list):\n                children = [\n                    node.new_child(element, i)\n                    for i, element in enumerate(node.value)\n                    if isinstance(element, (dict, list))\n                ]\n            else:\n                return\n\n            if not children:\n                return\n\n            for _node in children[:-1]:\n                yield from self._visit(_node, depth + 1)\n\n            # Descend into the last child without a new generator.\n            node, depth = children[-1], depth + 1\n\n'),
+]
